@@ -391,6 +391,11 @@ def _execute(spec, traced):
         tracemalloc.stop()
     fired = stream.fired or stream.eof_fired
     kind = spec.get('kind', '?')
+    # how far below the budgets the run stayed (histogram over all runs: the margin of the constants is evidence too)
+    for nm, val in (('ops', stream.ops), ('bytes', stream.bytes_returned), ('readreq', stream.max_read_request)):
+        q = val / W
+        b = 'le_1' if q <= 1 else 'le_4' if q <= 4 else 'le_16' if q <= 16 else 'le_64' if q <= 64 else 'gt_64'
+        probes['%s_per_W_%s' % (nm, b)] = 1
     return dict(spec=spec, violations=violations, digest=pdigest(log, stream.ops, stream.bytes_returned, stream.max_read_request),
                 nontrivial=bool(fired), nt_digest=pdigest(spec['image'] if not isinstance(spec['image'], dict) else spec['image']['hex'][:64], spec.get('eof'), sorted(subs.items())),
                 evaluations=1, sim_time=stream.clock.seq,
